@@ -1,5 +1,6 @@
 import IGVerif.Props.Ties
 import IGVerif.Proofs.ComboBraceParse
+import IGVerif.Proofs.ComboBraceNorm
 /-! C02 — nested statements and their combinations attach where and how they are written.
 
 The statement-level parser is modelled by its specification (`denote`, Spec/Grammar.lean) and
@@ -89,6 +90,17 @@ theorem nested_combination_parser_with_symbol (sym : Str) (o : Op3) (l r : NTree
       = .res ⟨.comb o.str [sym] [] (Combo.treeOfB (toBT l)) (Combo.treeOfB (toBT r)), sym ++ renderN (.op o l r), Combo.cNoError⟩ := by
   rw [renderN_eq]
   exact Combo.parseB_with_symbol sym o (toBT l) (toBT r) h hs hb nested fuel hf
+
+/-- **Chains of nested statements** (`Cac{Cac{…} [AND] Cac{…} [AND] Cac{…}}`, at any depth, mixed
+    with brace-indicated precedence): `Combo.BN.T` is the notation (a group written without its
+    own braces may only be the left part of a group with the same operator); the parser
+    re-brackets once per additional operand, in reading order, and returns the tree with every
+    chain nested to the left, one leaf per nested statement. -/
+theorem nested_combination_chains (o : Op3) (l r : Combo.BN.T) (hw : Combo.BN.wf (.bin o true l r) none)
+    (nested : Bool) (fuel : Nat) (hf : Combo.depthB (Combo.BN.toBT (.bin o true l r)) ≤ fuel) :
+    Combo.parse true fuel (Combo.BN.rT (.bin o true l r)) nested
+      = .res ⟨Combo.treeOfB (Combo.BN.toBT (.bin o true l r)), Combo.renderB (Combo.BN.toBT (.bin o true l r)), Combo.cNoError⟩ :=
+  Combo.BN.parseB_chains o l r hw nested fuel hf
 
 /-- every level of the scan: one complete boundary with the written operator for a combination,
     one incomplete boundary for a nested statement, lower levels untouched -/
